@@ -102,8 +102,11 @@ def ob_history(h):
     def tag(data):
         return data["marker"] if isinstance(data, dict) else ("model", id(data))
 
+    names = []
+
     def fake_service(data, project_name=None, is_return_full_results=False):
         calls.append(tag(data))
+        names.append(project_name)
         return ("result for", tag(data)), ("zone for", tag(data))
     old = pp.pinch_analysis_service
     pp.pinch_analysis_service = fake_service
@@ -136,6 +139,11 @@ def ob_history(h):
                 out = p.target()
                 h.check("target_answers_for_the_problem_loaded_last", out == ("result for", current) and p.results == out and p.master_zone == ("zone for", current))
                 h.check("service_called_at_most_once_per_load", len(calls) - calls_at_load <= 1 and (len(calls) == calls_at_load or calls[-1] == current))
+                # the site name is part of the result (record and graph names): it comes from the source loaded LAST -- the stem of a file,
+                # the default name for a model -- never from a source loaded earlier
+                want_name = current if isinstance(current, str) else pp.PinchProblem._project_name
+                if len(calls) > calls_at_load:
+                    h.check("project_name_is_that_of_the_source_loaded_last", names[-1] == want_name)
     finally:
         pp.pinch_analysis_service = old
         shutil.rmtree(tmp, ignore_errors=True)
